@@ -452,3 +452,37 @@ Proof.
   intros k rule calls i nb c t H. rewrite totalistic_class_sequence.
   rewrite nth_error_map, H. reflexivity.
 Qed.
+
+(* ---- the clauses of the property restated on arrays *)
+
+(* whatever the contents (also outside 0..k-1, where Python indexes from the end of the string): a value
+   returned by the function is a colour *)
+Theorem totalistic_result_lt : forall u n s k rule d, 2 <= k <= 36 ->
+  totalistic_ns u n s k rule = Ok d -> d < k.
+Proof.
+  intros u n s k rule d Hk. unfold totalistic_ns. rewrite (base_repr_ok k rule Hk). cbn [bind].
+  set (top := (Z.of_nat n * (Z.of_N k - 1))%Z).
+  destruct (top + 1 <? Z.of_nat (length (zfill (top + 1) (repr_digits k rule))))%Z; [discriminate|].
+  destruct (u && (top - s <? 0)%Z); [discriminate|].
+  unfold py_get. destruct (py_index _ _) as [i|]; [|discriminate].
+  destruct (nth_error _ i) as [x|] eqn:En; [|discriminate].
+  cbn [bind]. unfold int_base. destruct (x <? k) eqn:Ex; [|discriminate].
+  intros H. injection H as <-. lia.
+Qed.
+
+Theorem totalistic_cells_result_lt : forall u cells mask k rule d, 2 <= k <= 36 ->
+  (totalistic_rule u cells k rule = Ok d -> d < k) /\
+  (totalistic_rule_masked u cells mask k rule = Ok d -> d < k).
+Proof. intros. split; apply totalistic_result_lt; assumption. Qed.
+
+Lemma zsum_repeat0 : forall n, zsum (repeat 0%Z n) = 0%Z.
+Proof. induction n as [|n IH]; [reflexivity|]. cbn [repeat zsum fold_right]. fold (zsum (repeat 0%Z n)). lia. Qed.
+
+(* the all-zero neighbourhood of any size selects the least significant digit *)
+Theorem totalistic_all_zero : forall u n k rule, 2 <= k <= 36 ->
+  rule < k ^ (N.of_nat n * (k - 1) + 1) ->
+  totalistic_rule u (repeat 0%Z n) k rule = Ok (rule mod k).
+Proof.
+  intros u n k rule Hk Hr. unfold totalistic_rule. rewrite repeat_length, zsum_repeat0.
+  apply (totalistic_digit u n 0%Z k rule Hk); [nia|exact Hr|reflexivity].
+Qed.
